@@ -217,22 +217,22 @@ func (e *Engine) binop(fr *frame, x *ssa.BinOp, reach string) Val {
 		sa, sb := e.scalar(a).T, e.scalar(b).T
 		switch x.Op {
 		case token.ADD:
-			e.needStrOp("str.concat", []string{SStr, SStr}, SStr)
-			r := e.sc.define("cat", SStr, app("str.concat", sa, sb))
-			e.sc.assume(eq(app("str.len", r), app("bvadd", app("str.len", sa), app("str.len", sb))))
-			e.litFactBinary("str.concat", sa, sb, r)
+			e.needStrOp("gs_concat", []string{SStr, SStr}, SStr)
+			r := e.sc.define("cat", SStr, app("gs_concat", sa, sb))
+			e.sc.assume(eq(app("gs_len", r), app("bvadd", app("gs_len", sa), app("gs_len", sb))))
+			e.litFactBinary("gs_concat", sa, sb, r)
 			return Sc{r, SStr}
 		case token.LSS, token.LEQ, token.GTR, token.GEQ:
-			e.needStrOp("str.lt", []string{SStr, SStr}, SBool)
+			e.needStrOp("gs_lt", []string{SStr, SStr}, SBool)
 			switch x.Op {
 			case token.LSS:
-				return Sc{app("str.lt", sa, sb), SBool}
+				return Sc{app("gs_lt", sa, sb), SBool}
 			case token.GTR:
-				return Sc{app("str.lt", sb, sa), SBool}
+				return Sc{app("gs_lt", sb, sa), SBool}
 			case token.LEQ:
-				return Sc{not(app("str.lt", sb, sa)), SBool}
+				return Sc{not(app("gs_lt", sb, sa)), SBool}
 			default:
-				return Sc{not(app("str.lt", sa, sb)), SBool}
+				return Sc{not(app("gs_lt", sa, sb)), SBool}
 			}
 		}
 		fail("string binop %s", x.Op)
@@ -395,8 +395,8 @@ func (e *Engine) convert(fr *frame, x *ssa.Convert, heap Heap) Val {
 			return v
 		case intf && bt.Info()&types.IsString != 0:
 			// string(rune)
-			e.needStrOp("str.fromrune", []string{SI64}, SStr)
-			return Sc{app("str.fromrune", e.toInt64(e.scalar(v), from)), SStr}
+			e.needStrOp("gs_fromrune", []string{SI64}, SStr)
+			return Sc{app("gs_fromrune", e.toInt64(e.scalar(v), from)), SStr}
 		case bf.Info()&types.IsFloat != 0 || bt.Info()&types.IsFloat != 0:
 			s, _ := scalarSort(to)
 			return Sc{e.sc.declare("fconv", s), s}
@@ -410,12 +410,12 @@ func (e *Engine) convert(fr *frame, x *ssa.Convert, heap Heap) Val {
 			if b, ok := under(sl.Elem()).(*types.Basic); ok && b.Kind() == types.Uint8 {
 				s := e.scalar(v).T
 				ref := e.alloc()
-				e.needStrOp("str.bytes", []string{SStr}, arrSort(SI64, SI8))
+				e.needStrOp("gs_bytes", []string{SStr}, arrSort(SI64, SI8))
 				c := e.comp(types.NewSlice(sl.Elem()), []pathElem{{field: -1}}, "", SI8)
 				cur := e.heapGet(heap, c)
-				heap[c.key] = e.sc.define("H_"+c.key, c.sort, sto(cur, ref, app("str.bytes", s)))
+				heap[c.key] = e.sc.define("H_"+c.key, c.sort, sto(cur, ref, app("gs_bytes", s)))
 				e.strBytesFacts(s)
-				return SliceVal{ref, bvLit(0, 64), app("str.len", s)}
+				return SliceVal{ref, bvLit(0, 64), app("gs_len", s)}
 			}
 			fail("string to %s", to)
 		}
@@ -425,10 +425,10 @@ func (e *Engine) convert(fr *frame, x *ssa.Convert, heap Heap) Val {
 			if b, ok := under(sl.Elem()).(*types.Basic); ok && b.Kind() == types.Uint8 {
 				sv := v.(SliceVal)
 				// string(bytes): an opaque function of the byte array contents and bounds
-				e.needStrOp("str.frombytes", []string{arrSort(SI64, SI8), SI64, SI64}, SStr)
+				e.needStrOp("gs_frombytes", []string{arrSort(SI64, SI8), SI64, SI64}, SStr)
 				c := e.comp(types.NewSlice(sl.Elem()), []pathElem{{field: -1}}, "", SI8)
-				r := e.sc.define("sfb", SStr, app("str.frombytes", sel(e.heapGet(heap, c), sv.Arr), sv.Off, sv.Len))
-				e.sc.assume(eq(app("str.len", r), sv.Len))
+				r := e.sc.define("sfb", SStr, app("gs_frombytes", sel(e.heapGet(heap, c), sv.Arr), sv.Off, sv.Len))
+				e.sc.assume(eq(app("gs_len", r), sv.Len))
 				return Sc{r, SStr}
 			}
 		}
@@ -451,7 +451,7 @@ func (e *Engine) strBytesFacts(s string) {
 			}
 			e.litFacts[key] = true
 			for i := 0; i < len(lit); i++ {
-				e.sc.assume(eq(sel(app("str.bytes", c), bvLit(uint64(i), 64)), bvLit(uint64(lit[i]), 8)))
+				e.sc.assume(eq(sel(app("gs_bytes", c), bvLit(uint64(i), 64)), bvLit(uint64(lit[i]), 8)))
 			}
 		}
 	}
@@ -564,10 +564,10 @@ func (e *Engine) indexOp(fr *frame, x *ssa.Index, reach string) Val {
 	switch xt := under(x.X.Type()).(type) {
 	case *types.Basic: // string
 		s := e.scalar(base).T
-		e.panicSite(fr, x, reach, and(app("bvsge", i, bvLit(0, 64)), app("bvslt", i, app("str.len", s))), "index-out-of-range")
-		e.needStrOp("str.bytes", []string{SStr}, arrSort(SI64, SI8))
+		e.panicSite(fr, x, reach, and(app("bvsge", i, bvLit(0, 64)), app("bvslt", i, app("gs_len", s))), "index-out-of-range")
+		e.needStrOp("gs_bytes", []string{SStr}, arrSort(SI64, SI8))
 		e.strBytesFacts(s)
-		return Sc{e.sc.define("sb", SI8, sel(app("str.bytes", s), i)), SI8}
+		return Sc{e.sc.define("sb", SI8, sel(app("gs_bytes", s), i)), SI8}
 	case *types.Array:
 		s := e.scalar(base)
 		e.panicSite(fr, x, reach, and(app("bvsge", i, bvLit(0, 64)), app("bvslt", i, bvLit(uint64(xt.Len()), 64))), "index-out-of-range")
@@ -597,14 +597,14 @@ func (e *Engine) sliceOp(fr *frame, x *ssa.Slice, reach string, heap Heap) Val {
 		return SliceVal{sv.Arr, e.sc.define("so", SI64, app("bvadd", sv.Off, lo)), e.sc.define("sl", SI64, app("bvsub", hi, lo))}
 	case *types.Basic: // string
 		s := e.scalar(base).T
-		hi = app("str.len", s)
+		hi = app("gs_len", s)
 		if x.High != nil {
 			hi = e.toInt64(e.scalar(e.operand(fr, x.High)), x.High.Type())
 		}
-		e.panicSite(fr, x, reach, and(app("bvsle", bvLit(0, 64), lo), app("bvsle", lo, hi), app("bvsle", hi, app("str.len", s))), "slice-bounds")
-		e.needStrOp("str.sub", []string{SStr, SI64, SI64}, SStr)
-		r := e.sc.define("sub", SStr, app("str.sub", s, lo, hi))
-		e.sc.assume(eq(app("str.len", r), app("bvsub", hi, lo)))
+		e.panicSite(fr, x, reach, and(app("bvsle", bvLit(0, 64), lo), app("bvsle", lo, hi), app("bvsle", hi, app("gs_len", s))), "slice-bounds")
+		e.needStrOp("gs_sub", []string{SStr, SI64, SI64}, SStr)
+		r := e.sc.define("sub", SStr, app("gs_sub", s, lo, hi))
+		e.sc.assume(eq(app("gs_len", r), app("bvsub", hi, lo)))
 		e.litFactSub(s, lo, hi, r)
 		return Sc{r, SStr}
 	case *types.Pointer: // pointer to array
@@ -834,10 +834,10 @@ func (e *Engine) lookup(fr *frame, x *ssa.Lookup, reach string, heap Heap) Val {
 	// string index
 	s := e.scalar(e.operand(fr, x.X)).T
 	i := e.toInt64(e.scalar(e.operand(fr, x.Index)), x.Index.Type())
-	e.panicSite(fr, x, reach, and(app("bvsge", i, bvLit(0, 64)), app("bvslt", i, app("str.len", s))), "index-out-of-range")
-	e.needStrOp("str.bytes", []string{SStr}, arrSort(SI64, SI8))
+	e.panicSite(fr, x, reach, and(app("bvsge", i, bvLit(0, 64)), app("bvslt", i, app("gs_len", s))), "index-out-of-range")
+	e.needStrOp("gs_bytes", []string{SStr}, arrSort(SI64, SI8))
 	e.strBytesFacts(s)
-	return Sc{e.sc.define("sb", SI8, sel(app("str.bytes", s), i)), SI8}
+	return Sc{e.sc.define("sb", SI8, sel(app("gs_bytes", s), i)), SI8}
 }
 
 func (e *Engine) mapUpdate(fr *frame, x *ssa.MapUpdate, reach string, heap Heap) {
